@@ -6,7 +6,7 @@ def run(ses):
     from pyvc import frame as _frame
 
     _frame.purity_obligation(ses)
-    records.check_unit(ses, "volume", ["table", "frame"])
+    records.check_unit(ses, "volume", ["table", "frame", "wf"])
     from props import analyses
 
     analyses.bounded_tables(ses, ('volume',), 12 if ses.tier == "quick" else 300)
